@@ -443,6 +443,13 @@ func (w *Writer) WriteDataEnd(e *DataEnd) error {
 
 // WriteChunkWithIndexes writes a chunk record with the associated message indexes to the output.
 func (w *Writer) WriteChunkWithIndexes(c *Chunk, messageIndexes []*MessageIndex) error {
+	return w.writeChunkWithIndexes(c, messageIndexes, true)
+}
+
+// writeChunkWithIndexes writes a chunk and its message indexes. Chunks built by
+// the writer itself pass updateTimeRange=false, because WriteMessage maintains
+// the statistics time range for every message it writes.
+func (w *Writer) writeChunkWithIndexes(c *Chunk, messageIndexes []*MessageIndex, updateTimeRange bool) error {
 	if c.UncompressedSize == 0 {
 		return nil
 	}
@@ -512,6 +519,9 @@ func (w *Writer) WriteChunkWithIndexes(c *Chunk, messageIndexes []*MessageIndex)
 
 	w.Statistics.ChunkCount++
 
+	if !updateTimeRange {
+		return nil
+	}
 	if w.Statistics.MessageStartTime == 0 || c.MessageStartTime < w.Statistics.MessageStartTime {
 		w.Statistics.MessageStartTime = c.MessageStartTime
 	}
@@ -563,7 +573,7 @@ func (w *Writer) flushActiveChunk() error {
 		}
 	}
 
-	err = w.WriteChunkWithIndexes(&chunk, messageIndexes)
+	err = w.writeChunkWithIndexes(&chunk, messageIndexes, false)
 	if err != nil {
 		return err
 	}
